@@ -236,7 +236,9 @@ def r2(ctx):
     if b is None:
         return
     P = b.path
-    cmds = aggregates(b, 'dedupe::FsCommand')
+    from .common import aggregates_deep
+    # (anchor block, statement): for a command built inside a closure of dedupe_script the anchor is where the closure is created
+    cmds = [(abb, s_) for abb, s_, _, _ in aggregates_deep(lib, b, 'dedupe::FsCommand')]
     if not ctx.floor(rule, 'FsCommand constructions in dedupe_script', len(cmds), 5, b.where()):
         return
     empties = b.calls(r'Vec<.*>::is_empty$|Vec::<T, A>::is_empty$')
